@@ -2,6 +2,7 @@
 import common
 import lexcommon
 from props import c02_lexmodel
+from props import c02_lexemit
 
 LEVEL = "proof"
 
@@ -11,6 +12,7 @@ def run(r):
     r.run_witnesses()
     lexcommon.run_lex(r, "C02")
     c02_lexmodel.run_lexmodel(r, "C02")
+    c02_lexemit.run_lexemit(r, "C02")
     r.assumptions += [
         "per generated specification the theorems quantify over all input strings; the space of specifications is sampled by the generator",
         "rules handed to the validator come from the harness' own AST (class expressions evaluated by the harness' own set arithmetic), tables from the file the real generator wrote",
